@@ -160,8 +160,14 @@ fn parse_ifdata_item(
             let mut seqitems = Vec::new();
             let mut checkpoint = parser.get_tokenpos();
             while let Ok(item) = parse_ifdata_item(parser, context, seqspec) {
+                let newpos = parser.get_tokenpos();
+                if newpos == checkpoint {
+                    // the item matched without consuming any input (e.g. an empty taggedunion),
+                    // so trying again would repeat forever
+                    break;
+                }
                 seqitems.push(item);
-                checkpoint = parser.get_tokenpos();
+                checkpoint = newpos;
             }
             parser.set_tokenpos(checkpoint);
             GenericIfData::Sequence(seqitems)
